@@ -371,3 +371,14 @@ Example C13_witness_filters :
    filter_sem (FCause 30) (EWrapCause 31 (EBase 30)), filter_sem (FIs 30) (EMulti [EBase 29; EBase 30]))
   = (FNo, FYes, FYes, FYes).
 Proof. reflexivity. Qed.
+
+(** boundary: an EMPTY UUID (0 = "") is a UUID like any other - the poisoned message carries it
+    unchanged and so does the consumed object afterwards (C13_accepted_error_published_once holds
+    for every [pm_uuid m0]; this instance only shows it is not vacuous there) *)
+Example C13_witness_empty_uuid :
+  poison (M:=N) (fun _ => 77%N) (PC 10 None) no_ctx (PM 0 [] (Some [])) Unsettled
+         (HS PreNone [] (HFail (EBase 30) [])) PPAccept
+  = (MRet [] None,
+     [PPublish 10 (PM 0 [] (Some [(1, 77); (2, 0); (3, 0); (4, 0)]%N)) Unsettled; PPublishRet true],
+     PM 0 [] (Some [(1, 77); (2, 0); (3, 0); (4, 0)]%N)).
+Proof. reflexivity. Qed.
